@@ -103,3 +103,11 @@ CHECKS["C03"] = {
     "note": "Trusted: PLY's parse() starts from an empty stack and keeps no state but the lexer object. Declined: line-based statement assembly, skip regex behaviour on run-time text, error recovery on arbitrary unsupported text.",
 }
 NOT_APPLICABLE.pop("C03", None)
+CHECKS["C13"] = {
+    "engine": "E5 rules (T-GROUP.*, T-ORDER, T-FLAGFLOW, T-AGREE.markers) on E1",
+    "technique": "structural loop-shape and table-agreement analysis of the regrouping function against the documented kind->bucket mapping; flag def-use check",
+    "text": "For all flat results: the regrouping visits every entity once in order, files it (itself or a plain copy) in the bucket mapped from the first marker key it carries and leaves the marker loop; the marker table equals the documented kind->bucket mapping with generic markers last; the six documented buckets start as empty lists and only an empty comments bucket can be removed; buckets only grow by append/extend; the flag is consulted only after the flat list is complete. This is the whole function's behaviour decided from its shape, given that an entity's kind is identified by its marker key.",
+    "design_ref": "DESIGN.md section 4 C13",
+    "note": "Assumes entity dicts of one kind do not carry the marker key of another kind (decided for the supported statement forms by the C18 fragments). Trusted: CPython dict iteration order = literal order.",
+}
+NOT_APPLICABLE.pop("C13", None)
